@@ -235,6 +235,42 @@ pub fn run(ctx: &mut Ctx) {
         }
     }
     crate::spaces::render_probes(ctx, &["missing", "missing_some"]);
+    // key lists whose entries are themselves lists (a key list inside the key list, to any of three levels), objects
+    // or booleans, at every position, for every threshold: `missing` flattens only a FIRST operand that is an
+    // array (its documented quirk); everything else that is not a string, an integer or null is not a key
+    {
+        let entries: Vec<Value> = ["\"a\"", "\"zz\"", "1", "null", "[]", "[\"a\"]", "[\"zz\",\"yy\"]", "[\"zz\",\"yy\",\"xx\"]", "[[\"zz\",\"yy\"]]", "[5,6,7]", "{}", "true", "1.5", "[null]", "[[]]"].iter().map(|t| al::parse(t)).collect();
+        let mut lists: Vec<Vec<Value>> = vec![];
+        for a in &entries {
+            lists.push(vec![a.clone()]);
+            for b in &entries {
+                lists.push(vec![a.clone(), b.clone()]);
+            }
+        }
+        for a in entries.iter().skip(4) {
+            for b in entries.iter().take(6) {
+                for c in entries.iter().take(6) {
+                    lists.push(vec![a.clone(), b.clone(), c.clone()]);
+                    lists.push(vec![b.clone(), a.clone(), c.clone()]);
+                }
+            }
+        }
+        for l in lists {
+            if !ctx.mine() {
+                continue;
+            }
+            for d in [json!({"a": 1, "c": 2}), json!([1, 2]), json!({}), json!("s")] {
+                ctx.edge();
+                ctx.check("nested-key-lists:missing", &op("missing", l.clone()), &d);
+                ctx.check("nested-key-lists:missing:array", &op("missing", vec![Value::Array(l.clone())]), &d);
+                ctx.check("nested-key-lists:missing:computed", &json!({"missing": {"var": "ks"}}), &json!({"ks": l, "a": 1}));
+                for need in 0..=(l.len() + 2) {
+                    ctx.check("nested-key-lists:missing_some", &json!({"missing_some": [need, l]}), &d);
+                }
+                ctx.check("nested-key-lists:missing_some:computed", &json!({"missing_some": [1, {"var": "ks"}]}), &json!({"ks": l, "a": 1}));
+            }
+        }
+    }
     crate::spaces::width_probes(ctx);
     crate::spaces::sweep::length_sweep(ctx);
     crate::spaces::type_grid_probes(ctx, &["missing", "missing_some"]);
